@@ -5,7 +5,10 @@ use crate::serialize::Serialize;
 use crate::serialize::{MappedSlice, MemoryMap, MemoryMapped};
 use crate::bits;
 
+#[cfg(not(simple_sds_verif))]
 use std::fs::{File, OpenOptions};
+#[cfg(simple_sds_verif)]
+use crate::verif_io::{File, OpenOptions};
 use std::io::{Error, ErrorKind, Seek, SeekFrom};
 use std::path::{Path, PathBuf};
 use std::{cmp, io};
